@@ -727,6 +727,9 @@ impl ZmtpEngine {
       };
 
       self.last_activity_time = Instant::now();
+      // Any inbound frame proves the peer is alive, not only a PONG: stop waiting for one,
+      // so a peer whose traffic keeps flowing is never disconnected by the heartbeat timer.
+      self.waiting_for_pong = false;
 
       if msg.is_command() {
         // ZMTP/2.0 has no COMMAND frames; receiving one is a protocol violation.
